@@ -820,24 +820,100 @@ def _line_map(old_tree, new_src):
     return m
 
 
+def _own_walk(fn):
+    """Nodes of a function excluding nested functions / classes / lambdas."""
+    stack = list(ast.iter_child_nodes(fn))
+    while stack:
+        n = stack.pop()
+        yield n
+        if isinstance(n, (ast.FunctionDef, ast.AsyncFunctionDef, ast.ClassDef, ast.Lambda)):
+            continue
+        stack.extend(ast.iter_child_nodes(n))
+
+
+def _dealias_bound_methods(tree: ast.Module) -> list[str]:
+    """``add = graph.add_edge`` ... ``add(u, v)``  ->  ``graph.add_edge(u, v)``.
+
+    A hot-path idiom (bind the method once, call the local).  All call-site
+    rules look for calls by receiver and method name, so the alias is undone on
+    the source.  Done only when it cannot change meaning: the alias is assigned
+    once, at function level, from ``<name>.<method>`` or ``self.<attr>.<method>``;
+    it is used only as the callee of calls (never passed on, never in a nested
+    function); the receiver name is never rebound in the function (and, for
+    ``self.<attr>``, the function never assigns that attribute)."""
+    notes = []
+    for fn in [n for n in ast.walk(tree) if isinstance(n, (ast.FunctionDef, ast.AsyncFunctionDef))]:
+        stores: dict[str, int] = {}
+        for n in _own_walk(fn):
+            if isinstance(n, ast.Name) and isinstance(n.ctx, (ast.Store, ast.Del)):
+                stores[n.id] = stores.get(n.id, 0) + 1
+        a = fn.args
+        params = {x.arg for x in a.posonlyargs + a.args + a.kwonlyargs} | ({a.vararg.arg} if a.vararg else set()) | ({a.kwarg.arg} if a.kwarg else set())
+        attr_stores = {ast.unparse(n) for n in _own_walk(fn) if isinstance(n, ast.Attribute) and isinstance(n.ctx, (ast.Store, ast.Del))}
+        nested_names = set()
+        for n in _own_walk(fn):
+            if isinstance(n, (ast.FunctionDef, ast.AsyncFunctionDef, ast.Lambda, ast.ClassDef)):
+                nested_names |= {x.id for x in ast.walk(n) if isinstance(x, ast.Name)}
+        declared = {nm for n in _own_walk(fn) if isinstance(n, (ast.Global, ast.Nonlocal)) for nm in n.names}
+        for i, st in enumerate(list(fn.body)):
+            if not (isinstance(st, ast.Assign) and len(st.targets) == 1 and isinstance(st.targets[0], ast.Name)):
+                continue
+            name, v = st.targets[0].id, st.value
+            if stores.get(name) != 1 or name in params or name in nested_names or name in declared:
+                continue
+            if not isinstance(v, ast.Attribute):
+                continue
+            recv = v.value
+            if isinstance(recv, ast.Name):
+                root = recv.id
+                if root != name and (stores.get(root, 0) > (0 if root in params else 1) or root in declared):
+                    continue
+                if root not in params and stores.get(root, 0) == 0 and root != "self":
+                    pass  # a global / module: fine
+            elif isinstance(recv, ast.Attribute) and isinstance(recv.value, ast.Name) and recv.value.id in params and stores.get(recv.value.id, 0) == 0:
+                if ast.unparse(recv) in attr_stores:
+                    continue
+            else:
+                continue
+            uses = [n for n in _own_walk(fn) if isinstance(n, ast.Name) and n.id == name and isinstance(n.ctx, ast.Load)]
+            calls = {id(n.func) for n in _own_walk(fn) if isinstance(n, ast.Call) and isinstance(n.func, ast.Name) and n.func.id == name}
+            if not uses or any(id(u) not in calls for u in uses):
+                continue
+            # the local receiver must be bound before the alias (no use-before-def games)
+            for n in _own_walk(fn):
+                if isinstance(n, ast.Call) and isinstance(n.func, ast.Name) and n.func.id == name:
+                    n.func = ast.copy_location(copy.deepcopy(v), n.func)
+            fn.body.remove(st)
+            if not fn.body:
+                fn.body.append(ast.copy_location(ast.Pass(), st))
+            notes.append(f"{fn.name}: bound-method alias `{name} = {ast.unparse(v)}` undone")
+    return notes
+
+
 def unbundle(sources: dict[str, str]):
     """``{rel: src}`` -> (``{rel: new src}`` for rewritten modules, notes,
     line maps).  Modules that need nothing or cannot be rewritten safely are
     absent from the result."""
     out, notes, maps = {}, [], {}
     trees = {}
+    dealiased = {}
     for rel, src in sources.items():
-        if "class _" not in src:
-            continue
         try:
-            trees[rel] = ast.parse(src)
+            tree = ast.parse(src)
         except SyntaxError:
             continue
+        ns = _dealias_bound_methods(tree)
+        if ns:
+            dealiased[rel] = ns
+            trees[rel] = tree
+        elif "class _" in src:
+            trees[rel] = tree
     for rel, tree in trees.items():
         cands = _candidates(tree)
-        if not cands:
-            continue
         changed = False
+        if rel in dealiased:
+            changed = True
+            notes += [f"{rel}: {x}" for x in dealiased[rel]]
         for cls, attr, bnode, modf in cands:
             label = f"{rel}: {cls.name}.{attr} <- {bnode.name}"
             if not attr.startswith("_") or attr.startswith("__"):
